@@ -1,8 +1,11 @@
 // Family "tripwire": TripWire lines, detectors and triggers (C19), including weak-memory mode for the publication contract.
 #include "common.hpp"
 
+// the library's macros are expanded with the same interposition as its headers (their bodies name std:: types)
+#define std vstd
 DECLARE_TRIPLINE()
 DECLARE_INDEXED_TRIPLINES(16)
+#undef std
 
 // Access to the private static accessors, to *reset* the process-wide lines between cases (explicit instantiation may name
 // private members; nothing in /repo changes).
